@@ -2107,10 +2107,16 @@ impl<'a> BackendWriteTransaction<'a> {
         } = self;
 
         // write the ruv content back to the db.
+        #[cfg(feature = "verif-hooks")]
+        crate::verif_hooks::c06::pause(crate::verif_hooks::c06::W_BE);
         idlayer.write_db_ruv(ruv.added(), ruv.removed())?;
 
         idlayer.commit().map(|()| {
+            #[cfg(feature = "verif-hooks")]
+            crate::verif_hooks::c06::pause(crate::verif_hooks::c06::W_RUV);
             ruv.commit();
+            #[cfg(feature = "verif-hooks")]
+            crate::verif_hooks::c06::pause(crate::verif_hooks::c06::W_IDXMETA);
             idxmeta_wr.commit();
         })
     }
